@@ -1,0 +1,58 @@
+//go:build verif
+
+package quicswarm
+
+import (
+	"sort"
+
+	"github.com/quic-go/quic-go"
+
+	"go.brendoncarroll.net/p2p"
+	"go.brendoncarroll.net/p2p/f/x509"
+)
+
+// VerifSess is a read-only projection of one entry of the session cache.
+// It is only compiled with the verif build tag.
+type VerifSess struct {
+	// Key is the address part of the cache key (Addr.Key() of the peer: "<id>@<inner address>").
+	Key string
+	// IsClient is the direction part of the cache key: true for sessions this node dialled.
+	IsClient bool
+	// RemoteID is the fingerprint of the key the session authenticated (recomputed from the session's
+	// TLS state, not taken from the cache key); HasID is false when the session carries no certificate.
+	RemoteID p2p.PeerID
+	HasID    bool
+	// Closed reports whether the session's context has ended.
+	Closed bool
+	// Conn is the cached session itself (the harness looks at its identity).
+	Conn quic.Connection
+}
+
+// VerifSessions returns the entries of the session cache, sorted by (Key, IsClient), taken under the
+// cache's lock.
+func (s *Swarm[T]) VerifSessions() []VerifSess {
+	s.mu.RLock()
+	defer s.mu.RUnlock()
+	ret := make([]VerifSess, 0, len(s.sessCache))
+	for k, sess := range s.sessCache {
+		v := VerifSess{Key: k.addr, IsClient: k.outbound, Conn: sess, Closed: sess.Context().Err() != nil}
+		if certs := sess.ConnectionState().TLS.PeerCertificates; len(certs) > 0 {
+			if pub, err := x509.ParsePublicKey(certs[0].RawSubjectPublicKeyInfo); err == nil {
+				v.RemoteID, v.HasID = s.fingerprinter(pub), true
+			}
+		}
+		ret = append(ret, v)
+	}
+	sort.Slice(ret, func(i, j int) bool {
+		if ret[i].Key != ret[j].Key {
+			return ret[i].Key < ret[j].Key
+		}
+		return !ret[i].IsClient && ret[j].IsClient
+	})
+	return ret
+}
+
+// VerifClosed reports whether the swarm's background context has ended (Close was called).
+func (s *Swarm[T]) VerifClosed() bool {
+	return s.bgCtx.Err() != nil
+}
